@@ -408,7 +408,7 @@ def sort_issues(issues, reverse=False):
             if key in int_sort_list:
                 result.append(d.get(key, -1))
             else:
-                result.append(d.get(key, ""))
+                result.append(str(d.get(key, "")))  # column labels are numbers when a sheet has no header
         return tuple(result)
 
     issues = sorted(issues, key=_get_keys, reverse=reverse)
